@@ -41,7 +41,8 @@ def optSStrJson : Option SStr → Json
 /-- `sstr.case`: source text `src`; optional list `convs` of renderings
 `{cfg, quote, quoted, impl}` where `impl` is the implementation's output text (or null on error).
 Reply: the model's parse / plain form / re-parse, and per rendering the target-language reading
-of the implementation's text and of the model's text. -/
+of the implementation's text and of the model's text (`quoted`: `decodeQuoted`; otherwise the
+bare-word reader `decodeBare` with the configuration's quote string). -/
 def sstrCase (j : Json) : Except String Json := do
   let src ← getStr j "src"
   let s := parse src
@@ -55,7 +56,8 @@ def sstrCase (j : Json) : Except String Json := do
     let sc : StrCfg := { quote := q, esc := k.esc, multi := k.multi, single := k.single,
                          addEscaped := k.addEscaped, filter := k.filter }
     let model := convertValueStr sc quoted s
-    let rd (t : Str) : Option SStr := if quoted then decodeQuoted kk q t else decode kk t
+    -- an unquoted literal is read by the bare-word reader: the language's quote (if any) keeps its meaning there
+    let rd (t : Str) : Option SStr := if quoted then decodeQuoted kk q t else decodeBare kk q t
     let implText ← optStr c "impl"
     pure (Json.mkObj [
       ("wf", Json.bool (convWf kk && (!quoted || (quoteWf kk q && quoteTailOk kk q)))),
